@@ -124,9 +124,14 @@ def validate_semantics(seed, n):
         if b in ('NONE', 'CI', 'BAD'):
             res['skipped'] += 1; continue
         parts = b.split(';')
-        for h, fa, fi, mb in zip(hs, a['full'], a['find'], parts):
+        for hi_, (h, fa, fi, mb) in enumerate(zip(hs, a['full'], a['find'], parts)):
             res['haystacks'] += 1
-            mfull, mfind, mfirst = (mb.split('/') + ['?'])[:3]
+            mfull, mfind, mfirst, mcount = (mb.split('/') + ['?', '?'])[:4]
+            # find_iter(h).count() (Engine/Prio.v find_iter_count) against the PikeVM's
+            if mcount != '?' and a.get('vm_count') and a['vm_count'][hi_] is not None:
+                res['count_compared'] = res.get('count_compared', 0) + 1
+                if int(mcount) != a['vm_count'][hi_]:
+                    res['first_disagree'].append({'pattern': ''.join(map(chr, p)), 'haystack': h, 'pikevm_find_iter_count': a['vm_count'][hi_], 'model_count': mcount})
             # leftmost-FIRST (Engine/Prio.v, Proofs/PrioSound.v): the model predicts the exact span `find` reports
             if mfirst != '?':
                 res['first_compared'] = res.get('first_compared', 0) + 1
